@@ -32,6 +32,10 @@ VertexIndex G_P, G_Q;
 bg_scratch_row_t bg_scratch_row;
 struct bg_adj *bg_cur_adj;
 bg_ghost_frontier_t bg_ghost_frontier;
+bg_scratch_val_VLabel_t bg_scratch_val_VLabel;
+bg_scratch_val_NoLabel_t bg_scratch_val_NoLabel;
+bg_scratch_val_uint_t bg_scratch_val_uint;
+bg_scratch_val_real_t bg_scratch_val_real;
 const VLabel bg_zero_VLabel = {0};
 const NoLabel bg_zero_NoLabel = {0};
 const EdgeMultiplicity bg_zero_uint = 0;
@@ -103,8 +107,30 @@ void alpha(const BaseGraph::LabeledDirectedGraph<L> &g, Abs &a, Cells<T> &st) {
 }
 template <class L, class Abs, class T>
 void alpha(const BaseGraph::LabeledUndirectedGraph<L> &g, Abs &a, Cells<T> &st) {
-    alpha_base(static_cast<const BaseGraph::LabeledDirectedGraph<L> &>(g), a.base.adjacencyList,
+    alpha_base((const BaseGraph::LabeledDirectedGraph<L> &)g, a.base.adjacencyList, /* C cast: protected base */
                a.base.edgeLabels, st, a.base.size, a.base.edgeNumber);
+}
+
+// multigraphs and weighted graphs: base object + running total
+template <class Abs, class T>
+void alpha(const BaseGraph::DirectedMultigraph &g, Abs &a, Cells<T> &st) {
+    alpha(g.asLabeledGraph(), a.base, st);
+    a.totalEdgeNumber = g.totalEdgeNumber;
+}
+template <class Abs, class T>
+void alpha(const BaseGraph::UndirectedMultigraph &g, Abs &a, Cells<T> &st) {
+    alpha(g.asLabeledGraph(), a.base, st);
+    a.totalEdgeNumber = g.totalEdgeNumber;
+}
+template <class Abs, class T>
+void alpha(const BaseGraph::DirectedWeightedGraph &g, Abs &a, Cells<T> &st) {
+    alpha(g.asLabeledGraph(), a.base, st);
+    a.totalWeight = (bg_real)g.totalWeight;
+}
+template <class Abs, class T>
+void alpha(const BaseGraph::UndirectedWeightedGraph &g, Abs &a, Cells<T> &st) {
+    alpha(g.asLabeledGraph(), a.base, st);
+    a.totalWeight = (bg_real)g.totalWeight;
 }
 
 // ---- enumeration of small concrete graphs through the public API
@@ -115,6 +141,29 @@ template <> inline unsigned int mk_label<unsigned int>(int k) { return (unsigned
 template <> inline double mk_label<double>(int k) { return (double)k; }
 
 struct State { std::string history; };
+
+template <class G>
+void bg_add(G &g, int i, int j, int lab, bool force, std::ostringstream &h) {
+    typedef decltype(g.getEdgeLabel(0, 0)) L;
+    g.addEdge(i, j, mk_label<L>(lab), force);
+    h << " g.addEdge(" << i << "," << j << ",L(" << lab << ")," << (force ? "true" : "false") << ");";
+}
+inline void bg_add(BaseGraph::DirectedMultigraph &g, int i, int j, int lab, bool force, std::ostringstream &h) {
+    g.addMultiedge(i, j, lab % 3 + 1, force);
+    h << " g.addMultiedge(" << i << "," << j << "," << lab % 3 + 1 << "," << (force ? "true" : "false") << ");";
+}
+inline void bg_add(BaseGraph::UndirectedMultigraph &g, int i, int j, int lab, bool force, std::ostringstream &h) {
+    g.addMultiedge(i, j, lab % 3 + 1, force);
+    h << " g.addMultiedge(" << i << "," << j << "," << lab % 3 + 1 << "," << (force ? "true" : "false") << ");";
+}
+inline void bg_add(BaseGraph::DirectedWeightedGraph &g, int i, int j, int lab, bool force, std::ostringstream &h) {
+    g.addEdge(i, j, (double)(lab % 5 + 1), force);
+    h << " g.addEdge(" << i << "," << j << "," << lab % 5 + 1 << ".0," << (force ? "true" : "false") << ");";
+}
+inline void bg_add(BaseGraph::UndirectedWeightedGraph &g, int i, int j, int lab, bool force, std::ostringstream &h) {
+    g.addEdge(i, j, (double)(lab % 5 + 1), force);
+    h << " g.addEdge(" << i << "," << j << "," << lab % 5 + 1 << ".0," << (force ? "true" : "false") << ");";
+}
 
 // all graphs on n <= maxN vertices whose ordered pairs carry 0..maxCopies copies
 template <class G, class L>
@@ -132,9 +181,7 @@ void enumerate_graphs(int maxN, int maxCopies, bool undirected,
             for (size_t k = 0; k < pairs.size(); ++k)
                 for (int c = 0; c < cnt[k]; ++c) {
                     int lab = 10 * pairs[k].first + pairs[k].second + 1;
-                    g.addEdge(pairs[k].first, pairs[k].second, mk_label<L>(lab), c > 0);
-                    h << " g.addEdge(" << pairs[k].first << "," << pairs[k].second << ",L(" << lab << "),"
-                      << (c > 0 ? "true" : "false") << ");";
+                    bg_add(g, pairs[k].first, pairs[k].second, lab, c > 0, h);
                 }
             visit(g, h.str());
             size_t k = 0;
